@@ -155,10 +155,15 @@ class ModuleInfo:
 
 
 class Repo:
-    def __init__(self, root: str) -> None:
+    def __init__(self, root: str, normalize: bool = True) -> None:
         self.root = os.path.abspath(root)
         self.modules: dict[str, ModuleInfo] = {}
+        self.normalization: dict[str, object] = {}
         self._load()
+        if normalize:
+            from .normalize import normalize_repo
+
+            self.normalization = normalize_repo(self)
 
     # ------------------------------------------------------------------ loading
     def _load(self) -> None:
